@@ -150,7 +150,7 @@ def docUnguardedCycle (doc : Json) : Bool :=
   let defs := kvs (getD (getD doc "components" Json.null) "schemas" Json.null)
   (usedComponents doc).any (fun n => reaches defs n defs.length n)
 
-/-! F-C10-6: can a decoder of this exchange produce a value that `encoding/json` refuses? -/
+/-! input class of F-C10-6 (fixed 2104468, ccc6020): can a decoder of this exchange be asked for a value that `encoding/json` refuses? -/
 
 def lower (s : String) : String := s.map Char.toLower
 def hasSub (s sub : String) : Bool := (s.splitOn sub).length > 1
@@ -277,8 +277,7 @@ def handleTraffic (j : Json) : Json :=
   let unenc := msgUnencodable req || msgUnencodable (getD j "resp" Json.null)
   let uncopy := msgUncopyable req || msgUncopyable (getD j "resp" Json.null)
   let huge := hugeIndexQuery (getStr req "query")
-  let excl := (if exRec then ["UnguardedRecursion"] else []) ++ (if unenc then ["UnencodableErrorValue"] else []) ++
-              (if uncopy then ["UncopyableYamlKey"] else []) ++ (if huge then ["HugeArrayIndex"] else [])
+  let excl := (if exRec then ["UnguardedRecursion"] else [])
   let branches :=
     featureBranches doc ++
     (if router == "legacy" then ["route.legacy." ++ routeStr route] else ["route.gorilla"]) ++
@@ -293,12 +292,14 @@ def handleTraffic (j : Json) : Json :=
     (if hasKey req "body_b64" then ["req.binary-body"] else []) ++
     (if literal then ["fixed.literal-template"] else []) ++ (if portBad then ["fixed.port-unclosed"] else []) ++
     (if paramNoSchema then ["fixed.content-param-no-schema"] else []) ++ (if emp then ["fixed.emptiness-cycle"] else []) ++
+    -- input classes of the findings repaired in round 3 (F-C10-6/7/8): regression coverage, no longer exclusions
+    (if unenc then ["fixed.unencodable-value"] else []) ++ (if uncopy then ["fixed.uncopyable-yaml-key"] else []) ++
+    (if huge then ["fixed.huge-array-index"] else []) ++
     excl.map (fun e => "excl." ++ e)
   -- the traffic model leaves the decoders' and the validator's answers open (`Bits`): what it says about one
   -- concrete exchange is the SET of outcomes it allows — normal return always, unbounded recursion only when an
-  -- unguarded cycle is reachable, a panic in an error's text only when a decoded value may be non-JSON, a panic
-  -- in deepcopy only when a YAML mapping may have a null or NaN key, exhaustion only with a huge bracketed index
-  jobj [("model", jobj [("may_crash", Json.bool exRec), ("may_unprintable", Json.bool unenc), ("may_copy_panic", Json.bool uncopy), ("may_exhaust", Json.bool huge),
+  -- unguarded cycle is reachable; nothing else
+  jobj [("model", jobj [("may_crash", Json.bool exRec),
                         ("route", if router == "legacy" then Json.str (routeStr route) else Json.null)]),
         ("spec", jobj [("panic", Json.bool false)]),
         ("excl", jstrs excl), ("branches", jstrs branches)]
